@@ -100,7 +100,12 @@ impl<S: AsyncRead + Unpin> DltStreamReader<S> {
 
         let (_, message_len) = parse_length(&self.buffer[storage_len..header_len])?;
         let total_len = storage_len + message_len as usize;
-        debug_assert!(total_len <= self.buffer.len());
+        if total_len > self.buffer.len() {
+            return Err(DltParseError::ParsingHickup(format!(
+                "message length {} exceeds the maximum message length of the reader",
+                message_len
+            )));
+        }
         if total_len < header_len {
             return Err(DltParseError::ParsingHickup(format!(
                 "message length {} is less than the length of the header",
